@@ -226,6 +226,8 @@ class Interp:
             return v
         if is_symint(v):
             return v != 0
+        if type(v).__name__ == "SymChar":
+            return True
         if isinstance(v, SymBytes):
             return len(v.items) > 0
         if isinstance(v, SymSeq):
@@ -319,7 +321,7 @@ class Interp:
             return "bool"
         if isinstance(v, int) or is_symint(v):
             return "int"
-        if isinstance(v, str):
+        if isinstance(v, str) or type(v).__name__ == "SymChar":
             return "str"
         if isinstance(v, (bytes, SymBytes, Rope)):
             return "bytes"
